@@ -169,8 +169,13 @@ class Gen:
             if m < 0.2:
                 d["dynamic"] = True
             elif m < 0.45:
-                d["delay_in"] = rng.choice([0, 1, 1, 2])
-                d["early_out"] = rng.choice([0, 0, 1, 2])
+                # DelaysFit: delay_in + early_out <= duration (the declared span must not be negative)
+                kind = next((x["kind"] for x in self.script if x["op"] == "task" and x["name"] == t), ("zero",))
+                room = kind[1] if kind[0] == "fixed" else (kind[1] if kind[0] == "var" else 0)
+                di = rng.choice([0, 1, 1, 2])
+                eo = rng.choice([0, 0, 1, 2])
+                if di + eo <= room:
+                    d["delay_in"], d["early_out"] = di, eo
         self.emit(d)
 
     def g_taskc(self, optional=None, name=None):
